@@ -96,7 +96,7 @@ func (w *wgReplay) id(g *waitgroup.Generation) int {
 
 func (w *wgReplay) violate(pred, what string) {
 	w.res.Violate("waitgroup/"+pred, fmt.Sprintf("internal/waitgroup %s after calls %v: %s", pred, w.hist, what),
-		map[string]any{"driver": "waitgroup", "behaviour": w.b.ID, "calls": w.hist})
+		map[string]any{"driver": "waitgroup", "behaviour": w.b.ID, "calls": w.hist, "behaviour_full": w.b})
 }
 
 // standing predicates on the real object, evaluated after every call
